@@ -220,9 +220,10 @@ impl C03 {
         }
     }
 
-    fn instance_case(&self, rng: &mut Rng, mon: &mut Monitor) {
+    fn instance_case(&self, rng: &mut Rng, mon: &mut Monitor, self_tier_thorough: bool, case_k: u64) {
         let regime = if rng.chance(3, 4) { Regime::D } else { Regime::R };
-        let cfg = InstCfg::new(regime);
+        let mut cfg = InstCfg::new(regime);
+        cfg.deepen(self_tier_thorough, case_k);
         let g = gen_instance(rng, &cfg);
         let mut inst = g.instance;
         add_threshold_constraints(rng, &mut inst, &g.pool);
@@ -457,9 +458,9 @@ impl Property for C03 {
             "bit-exact where the dyadic certificate covers every product/sum of the original function at the combined assignment; otherwise gamma-bound plus the documented epsilon-drop allowance m*EPS*max(1,|x|)^degree",
         ]
     }
-    fn run_case(&self, k: u64, rng: &mut Rng, _env: &Env, mon: &mut Monitor) {
+    fn run_case(&self, k: u64, rng: &mut Rng, env: &Env, mon: &mut Monitor) {
         if k % 3 == 2 {
-            self.instance_case(rng, mon)
+            self.instance_case(rng, mon, env.tier == Tier::Thorough, k / 3)
         } else {
             self.function_case(rng, mon)
         }
